@@ -53,6 +53,14 @@ pub fn check_c06(r: &PortableRegistry) -> Vec<Violation> {
             r,
         ));
     }
+    // decoding from a streaming reader (no remaining-length information) must agree with decoding from a slice
+    let stream = lib.clone();
+    match catch(move || PortableRegistry::decode(&mut scale::IoReader(&stream[..]))) {
+        Ok(Ok(d)) if d == *r => {}
+        Ok(Ok(d)) => v.push(viol(&format!("stream-decode-differs:{}", kind(r)), format!("decoding the library's bytes from an IoReader gives a different registry ({} entries instead of {})", d.types.len(), r.types.len()), r)),
+        Ok(Err(e)) => v.push(viol(&format!("stream-decode-rejects:{}", kind(r)), format!("decoding the library's bytes from an IoReader fails: {e}"), r)),
+        Err(p) => v.push(viol("decode-panic", format!("decode from an IoReader panicked: {p}"), r)),
+    }
     match refscale::decode_registry(&lib) {
         Ok((d, n)) if d == *r && n == lib.len() => {}
         Ok((_, n)) => v.push(viol(&format!("refdecode-of-lib-encode:{}", kind(r)), format!("reference decoder reads a different registry from the library's bytes (consumed {n} of {})", lib.len()), r)),
@@ -77,6 +85,17 @@ pub fn check_c07(r: &PortableRegistry) -> Vec<Violation> {
     let bytes = r.encode();
     if bytes != r.encode() || bytes != r.clone().encode() {
         v.push(viol("encode-nondeterministic", "two encodings of the same registry differ".into(), r));
+    }
+    // two registries back to back in one stream: the second must start exactly where the first ended
+    {
+        let mut two = bytes.clone();
+        two.extend_from_slice(&bytes);
+        let mut rd = scale::IoReader(&two[..]);
+        let a = PortableRegistry::decode(&mut rd);
+        let b = PortableRegistry::decode(&mut rd);
+        if a.as_ref().ok() != Some(r) || b.as_ref().ok() != Some(r) {
+            v.push(viol(&format!("stream-roundtrip:{}", kind(r)), "two copies of encode(r) read back to back from an IoReader do not both decode to r".into(), r));
+        }
     }
     if bytes.len() != r.encoded_size() {
         v.push(viol("encoded-size", format!("encoded_size() = {} but encode() wrote {}", r.encoded_size(), bytes.len()), r));
